@@ -56,7 +56,7 @@ func init() {
 		"time.Duration.Seconds":      modelDurationSeconds,
 		"time.Duration.Milliseconds": modelDurationDiv(1_000_000),
 		"time.Duration.Nanoseconds":  modelDurationDiv(1),
-		"time.Duration.String":       modelFreshString("durstr"),
+		"time.Duration.String":       modelDurationString,
 		"time.Unix":                  modelTimeFromUnix,
 		"net/http.Header.Get":    modelHeaderGet,
 		"net/http.Header.Set":    modelHeaderSet,
@@ -81,6 +81,14 @@ func modelOpaqueResult(x *Exec, fr *Frame, st *State, pc *preparedCall, k func(*
 
 func modelIdentityRecv(x *Exec, fr *Frame, st *State, pc *preparedCall, k func(*State, []Value)) {
 	ret1(st, k, pc.recv)
+}
+
+// time.Duration.String: the text form is a function of the value (durstr); ParseDuration reads it back (assumed).
+func modelDurationString(x *Exec, fr *Frame, st *State, pc *preparedCall, k func(*State, []Value)) {
+	r := x.freshValue(st, types.Typ[types.String], "durstr").(StrV)
+	st.assumeRaw(Gt(r.Len, IntLit(0)))
+	st.assumeRaw(Eq(x.strID(st, r), App("durstr", SInt, pc.recv.(IntV).T)))
+	ret1(st, k, r)
 }
 
 func modelFreshString(tag string) modelFn {
